@@ -339,6 +339,95 @@ func ruleSPLIT1(w *World) []Ob {
 			}
 		}
 	})
+	// path form: the block variable (a string phi at the loop head) receives, on every way round the loop, a value that
+	// ends with the current line — the old block plus the line, or (when a new block starts) the line alone
+	if !appended {
+		var endsWithLine func(v ssa.Value, d int) bool
+		isLineText := func(v ssa.Value) bool {
+			c, ok := stripConv(v).(*ssa.Call)
+			if !ok {
+				return false
+			}
+			switch calleeFullName(c.Common()) {
+			case "fmt.Sprintln", "fmt.Sprintf", "fmt.Sprint":
+				if len(c.Common().Args) == 0 {
+					return false
+				}
+				if els, ok := variadicElems(c.Common().Args[len(c.Common().Args)-1]); ok {
+					for _, e := range els {
+						if isScanLine(stripConv(e)) {
+							return calleeFullName(c.Common()) == "fmt.Sprintln"
+						}
+					}
+				}
+			}
+			return false
+		}
+		endsWithLine = func(v ssa.Value, d int) bool {
+			if d > 5 {
+				return false
+			}
+			v = stripConv(v)
+			if isLineText(v) {
+				return true
+			}
+			switch x := v.(type) {
+			case *ssa.BinOp:
+				if x.Op != token.ADD {
+					return false
+				}
+				if isLineText(x.Y) {
+					return true
+				}
+				// (… + line) + "\n"
+				if s, ok := constString(x.Y); ok && s == "\n" {
+					if inner, ok := stripConv(x.X).(*ssa.BinOp); ok && inner.Op == token.ADD && isScanLine(inner.Y) {
+						return true
+					}
+					if isScanLine(x.X) {
+						return true
+					}
+				}
+				// … + (line + "\n")
+				if inner, ok := stripConv(x.Y).(*ssa.BinOp); ok && inner.Op == token.ADD {
+					if s, ok := constString(inner.Y); ok && s == "\n" && isScanLine(inner.X) {
+						return true
+					}
+				}
+			case *ssa.Phi:
+				for _, e := range x.Edges {
+					if !endsWithLine(e, d+1) {
+						return false
+					}
+				}
+				return len(x.Edges) > 0
+			}
+			return false
+		}
+		head := scan.Block()
+		for _, in := range head.Instrs {
+			ph, ok := in.(*ssa.Phi)
+			if !ok {
+				continue
+			}
+			if b, isB := ph.Type().Underlying().(*types.Basic); !isB || b.Info()&types.IsString == 0 {
+				continue
+			}
+			nBack, okAll := 0, true
+			for i, e := range ph.Edges {
+				if i >= len(head.Preds) || !canReach(head, head.Preds[i]) {
+					continue // entry edge
+				}
+				nBack++
+				if !endsWithLine(e, 0) {
+					okAll = false
+				}
+			}
+			if nBack > 0 && okAll {
+				appended = true
+			}
+		}
+	}
 	// the same with a strings.Builder / bytes.Buffer accumulator: WriteString(line) followed by a newline write
 	// (or Fprintln into it), guarded by nothing but the loop and the cancellation poll
 	allInstrs(fn, func(in ssa.Instruction) {
